@@ -175,7 +175,9 @@ func ReadIgnoreAnnotations(cfg *config.Config, pass *analysis.Pass) *util.Ignore
 // Example: var x int // @ignore CODE1
 func findInlineNode(file *ast.File, comment *ast.Comment, fset *token.FileSet) (start token.Pos, end token.Pos, found bool) {
 	commentPos := comment.Pos()
-	commentLine := fset.Position(commentPos).Line
+	// Physical lines: positions adjusted by //line directives (generated code) can name
+	// lines that do not exist in this file, and the scope is about this file's text
+	commentLine := fset.PositionFor(commentPos, false).Line
 
 	// Binary search to find the declaration containing the comment
 	idx := sort.Search(len(file.Decls), func(i int) bool {
@@ -186,7 +188,7 @@ func findInlineNode(file *ast.File, comment *ast.Comment, fset *token.FileSet) (
 	// (e.g. `var x = T{} // @ignore CODE`) is inline for that line
 	if idx > 0 && (idx >= len(file.Decls) || commentPos < file.Decls[idx].Pos()) {
 		prev := file.Decls[idx-1]
-		if fset.Position(prev.End()).Line == commentLine {
+		if fset.PositionFor(prev.End(), false).Line == commentLine {
 			if fileContent := fset.File(commentPos); fileContent != nil {
 				return fileContent.LineStart(commentLine), comment.End(), true
 			}
@@ -218,7 +220,7 @@ func findInlineNode(file *ast.File, comment *ast.Comment, fset *token.FileSet) (
 			return false
 		}
 
-		nodeEndLine := fset.Position(n.End()).Line
+		nodeEndLine := fset.PositionFor(n.End(), false).Line
 
 		// Check if this node ends on the same line as the comment
 		if nodeEndLine == commentLine {
